@@ -65,6 +65,16 @@ def c09_2(c: Ctx) -> None:
                 c.fail(d, f'{w.target} written without `is None` guard', 'an explicitly supplied parent id is overwritten by the handler context', node=w.node, witness=c.path(g.entry, p))
 
 
+def result_lookup(e: ast.AST | None) -> tuple[ast.AST, ast.AST] | None:
+    """`<cur>.event_results[<k>]` or `<cur>.event_results.get(<k>)` -> (<cur>, <k>): the two spellings of "the result record of handler k on event cur"."""
+    if isinstance(e, ast.Subscript) and isinstance(e.value, ast.Attribute) and e.value.attr == 'event_results':
+        return e.value.value, e.slice
+    if isinstance(e, ast.Call) and isinstance(e.func, ast.Attribute) and e.func.attr == 'get' and len(e.args) == 1 and not e.keywords \
+            and isinstance(e.func.value, ast.Attribute) and e.func.value.attr == 'event_results':
+        return e.func.value.value, e.args[0]
+    return None
+
+
 def lineage_writes(c: Ctx):
     d = c.unit(SVC, 'EventBus.dispatch')
     pid = [w for w in c.cg.writes[d.key] if w.attr == 'event_parent_id' and w.how == 'assign']
@@ -86,8 +96,8 @@ def c09_3(c: Ctx) -> None:
             cur = U(w.node.value.value)
         elif w.attr == 'event_children':
             b = w.base
-            while isinstance(b, (ast.Subscript, ast.Attribute)) and not (isinstance(b, ast.Attribute) and b.attr == 'event_results'):
-                b = b.value
+            while isinstance(b, (ast.Subscript, ast.Attribute, ast.Call)) and not (isinstance(b, ast.Attribute) and b.attr == 'event_results'):
+                b = b.func if isinstance(b, ast.Call) else b.value
             if isinstance(b, ast.Attribute):
                 cur = U(b.value)
         if cur is None:
@@ -112,11 +122,12 @@ def c09_4(c: Ctx) -> None:
         c.fail(d, f'{len(kids)} children appends in dispatch', 'a dispatched event can be recorded as a child more than once')
     for w in kids:
         tgt = w.base  # <cur>.event_results[<hid>]
-        ok = isinstance(tgt, ast.Subscript) and isinstance(tgt.value, ast.Attribute) and tgt.value.attr == 'event_results' and isinstance(tgt.value.value, ast.Name) and isinstance(tgt.slice, ast.Name)
+        lk = result_lookup(tgt)
+        ok = lk is not None and isinstance(lk[0], ast.Name) and isinstance(lk[1], ast.Name)
         if not ok:
             c.fail(d, f'children appended to {U(tgt)[:70] if tgt is not None else "?"}', 'the child is not attributed to <current event>.event_results[<current handler id>]', node=w.node)
             continue
-        cur, hid = tgt.value.value.id, tgt.slice.id
+        cur, hid = lk[0].id, lk[1].id
         for name, var in ((cur, '_current_event_context'), (hid, '_current_handler_id_context')):
             defs = [n for n in own_nodes(d.node) if isinstance(n, (ast.Assign, ast.AnnAssign)) and n.value is not None and any(isinstance(t, ast.Name) and t.id == name for t in (n.targets if isinstance(n, ast.Assign) else [n.target]))]
             if defs and all(U(x.value) == f'{var}.get()' for x in defs):
@@ -170,9 +181,11 @@ def check_child_registration_guards(c: Ctx) -> None:
     for w in kids:
         tgt = w.base
         cur = hid = None
-        if isinstance(tgt, ast.Subscript) and isinstance(tgt.value, ast.Attribute) and isinstance(tgt.value.value, ast.Name) and isinstance(tgt.slice, ast.Name):
-            cur, hid = tgt.value.value.id, tgt.slice.id
+        lk = result_lookup(tgt)
+        if lk is not None and isinstance(lk[0], ast.Name) and isinstance(lk[1], ast.Name):
+            cur, hid = lk[0].id, lk[1].id
         allowed = {
+            f'{cur}.event_results.get({hid}) is not None', f'{cur}.event_results.get({hid})',  # "has a result for that handler", spelled as a lookup
             f'{hid} is not None', f'{hid}', f'{cur} is not None', f'{cur}', 'inside_handler_context.get()', f'{hid} in {cur}.event_results',
             f'{ev}.event_id != {cur}.event_id', f'{cur}.event_id != {ev}.event_id', f'{self_}.event_queue', f'{self_}.event_queue is not None',
         }
